@@ -32,8 +32,9 @@ import (
 // preserves evaluation order (only the lexically first call of a statement
 // header is lifted, short-circuit operands are lifted under their guard) and
 // is skipped whenever one of its preconditions fails (recursion, defer,
-// labels, variadics, generics, names that would be captured, types that cannot
-// be spelled in the caller's file). What was inlined is reported in the
+// labels, variadics, methods of generic types, names that would be captured,
+// types that cannot be spelled in the caller's file; a generic function is
+// inlined per call site with the type arguments of that call, genericInstance). What was inlined is reported in the
 // evidence. Inlining is semantics preserving, so a violation remains a
 // violation on the normalised program.
 
@@ -185,9 +186,10 @@ func (nz *normalizer) inlinable(f types.Object) (ok bool, why string) {
 	if sig.Variadic() {
 		return false, "variadic"
 	}
-	if sig.TypeParams().Len() > 0 || sig.RecvTypeParams().Len() > 0 {
+	if sig.RecvTypeParams().Len() > 0 {
 		return false, "generic"
 	}
+	// a generic function is judged per call site (genericInstance, called by expansion)
 	bad := ""
 	ast.Inspect(d.Body, func(n ast.Node) bool {
 		switch x := n.(type) {
@@ -582,6 +584,13 @@ func (nz *normalizer) expansion(pk *packages.Package, file *ast.File, site *inli
 	d := nz.decl[callee]
 	sig := callee.Type().(*types.Signature)
 	q, failed := nz.qualifier(file, pk)
+	// a generic helper: the temporaries get the types of this call's instance, the body sees its type
+	// parameters as local aliases of the type arguments (genericInstance)
+	tsig, typeDecls, whyG := nz.genericInstance(pk, callee, site.call, q)
+	if tsig == nil {
+		nz.Log = append(nz.Log, fmt.Sprintf("not inlined: %s (generic: %s at %s)", objName(callee), whyG, nz.fset.Position(site.call.Pos())))
+		return "", nil, false
+	}
 	nz.n++
 	id := fmt.Sprintf("__inl%d", nz.n)
 	var sb strings.Builder
@@ -589,9 +598,10 @@ func (nz *normalizer) expansion(pk *packages.Package, file *ast.File, site *inli
 	for i := 0; i < sig.Results().Len(); i++ {
 		t := fmt.Sprintf("%s_r%d", id, i)
 		temps = append(temps, t)
-		fmt.Fprintf(&sb, "var %s %s; _ = %s; ", t, types.TypeString(sig.Results().At(i).Type(), q), t)
+		fmt.Fprintf(&sb, "var %s %s; _ = %s; ", t, types.TypeString(tsig.Results().At(i).Type(), q), t)
 	}
 	var body strings.Builder
+	body.WriteString(typeDecls)
 	// receiver
 	if sig.Recv() != nil {
 		sel, okS := site.call.Fun.(*ast.SelectorExpr)
@@ -632,7 +642,7 @@ func (nz *normalizer) expansion(pk *packages.Package, file *ast.File, site *inli
 	}
 	var binds strings.Builder
 	for i, a := range site.call.Args {
-		pt := sig.Params().At(i).Type()
+		pt := tsig.Params().At(i).Type()
 		fmt.Fprintf(&binds, "var %s_a%d %s = %s; ", id, i, types.TypeString(pt, q), nz.text(a))
 		if pnames[i] != "_" {
 			fmt.Fprintf(&body, "%s := %s_a%d; _ = %s; ", pnames[i], id, i, pnames[i])
@@ -1189,4 +1199,161 @@ func (nz *normalizer) onlyCalled(callee types.Object, p *types.Var) bool {
 		return true
 	})
 	return ok && uses > 0
+}
+
+// genericInstance judges one call of a helper with type parameters. A call f(args) of a generic function f[P1, ...]
+// is a call of the instance f[A1, ...] the type checker recorded for it (types.Info.Instances: explicit or inferred
+// type arguments), and that instance is f's body with every Pi standing for Ai. The expansion therefore
+//   - declares its temporaries with the types of the INSTANCE's signature (returned as tsig), and
+//   - starts the inlined body with `type Pi = Ai` for every type parameter the body (or the type of a named result) mentions
+//     (returned as decls), so that the body text means what it means inside the instance.
+//
+// For a function without type parameters tsig is its own signature and decls is empty. tsig == nil (with a reason)
+// when the instance is not recorded, a type argument mentions a type parameter itself (a call inside another generic
+// body: `type T = T` would be a cycle) or cannot be written in the caller's package; the call then stays a call.
+func (nz *normalizer) genericInstance(pk *packages.Package, callee types.Object, call *ast.CallExpr, q types.Qualifier) (tsig *types.Signature, decls string, why string) {
+	sig, ok := callee.Type().(*types.Signature)
+	if !ok {
+		return nil, "", "not a function"
+	}
+	tps := sig.TypeParams()
+	if tps.Len() == 0 {
+		return sig, "", ""
+	}
+	fun := ast.Unparen(call.Fun)
+	switch x := fun.(type) {
+	case *ast.IndexExpr:
+		fun = ast.Unparen(x.X)
+	case *ast.IndexListExpr:
+		fun = ast.Unparen(x.X)
+	}
+	var id *ast.Ident
+	switch x := fun.(type) {
+	case *ast.Ident:
+		id = x
+	case *ast.SelectorExpr:
+		id = x.Sel
+	}
+	if id == nil {
+		return nil, "", "the callee is not named at the call"
+	}
+	inst, has := pk.TypesInfo.Instances[id]
+	if !has || inst.TypeArgs == nil || inst.TypeArgs.Len() != tps.Len() {
+		return nil, "", "no instance recorded for the call"
+	}
+	isig, ok := inst.Type.(*types.Signature)
+	if !ok || isig.Params().Len() != sig.Params().Len() || isig.Results().Len() != sig.Results().Len() {
+		return nil, "", "no instance recorded for the call"
+	}
+	for i := 0; i < inst.TypeArgs.Len(); i++ {
+		ta := inst.TypeArgs.At(i)
+		if mentionsTypeParam(ta, map[types.Type]bool{}) {
+			return nil, "", "a type argument depends on a type parameter of the caller"
+		}
+		if !spellable(ta, pk.Types, map[types.Type]bool{}) {
+			return nil, "", "a type argument cannot be written in the caller's package"
+		}
+	}
+	if mentionsTypeParam(isig.Params(), map[types.Type]bool{}) || mentionsTypeParam(isig.Results(), map[types.Type]bool{}) {
+		return nil, "", "the instance's signature depends on a type parameter"
+	}
+	// the type parameters the inlined text names
+	d := nz.decl[callee]
+	cpk := nz.declPkg[callee]
+	if d == nil || cpk == nil || d.Body == nil {
+		return nil, "", "no body"
+	}
+	index := map[*types.TypeParam]int{}
+	for i := 0; i < tps.Len(); i++ {
+		index[tps.At(i)] = i
+	}
+	used := map[int]bool{}
+	scan := func(n ast.Node) {
+		if n == nil {
+			return
+		}
+		ast.Inspect(n, func(m ast.Node) bool {
+			if x, ok := m.(*ast.Ident); ok {
+				if tn, ok := cpk.TypesInfo.Uses[x].(*types.TypeName); ok {
+					if tp, ok := tn.Type().(*types.TypeParam); ok {
+						if k, mine := index[tp]; mine {
+							used[k] = true
+						}
+					}
+				}
+			}
+			return true
+		})
+	}
+	scan(d.Body)
+	if d.Type.Results != nil {
+		for _, f := range d.Type.Results.List {
+			if len(f.Names) > 0 {
+				scan(f.Type) // a named result is declared as a local of the inlined body
+			}
+		}
+	}
+	var sb strings.Builder
+	for i := 0; i < tps.Len(); i++ {
+		if !used[i] {
+			continue
+		}
+		name := tps.At(i).Obj().Name()
+		if name == "_" {
+			continue
+		}
+		fmt.Fprintf(&sb, "type %s = %s; ", name, types.TypeString(inst.TypeArgs.At(i), q))
+	}
+	return isig, sb.String(), ""
+}
+
+// mentionsTypeParam: a type parameter occurs in t (a type literal of an interface with methods or embedded types is
+// answered yes: it is not looked into).
+func mentionsTypeParam(t types.Type, seen map[types.Type]bool) bool {
+	if t == nil || seen[t] {
+		return false
+	}
+	seen[t] = true
+	switch x := t.(type) {
+	case *types.TypeParam:
+		return true
+	case *types.Named:
+		for i := 0; i < x.TypeArgs().Len(); i++ {
+			if mentionsTypeParam(x.TypeArgs().At(i), seen) {
+				return true
+			}
+		}
+		return false
+	case *types.Alias:
+		return mentionsTypeParam(types.Unalias(x), seen)
+	case *types.Pointer:
+		return mentionsTypeParam(x.Elem(), seen)
+	case *types.Slice:
+		return mentionsTypeParam(x.Elem(), seen)
+	case *types.Array:
+		return mentionsTypeParam(x.Elem(), seen)
+	case *types.Chan:
+		return mentionsTypeParam(x.Elem(), seen)
+	case *types.Map:
+		return mentionsTypeParam(x.Key(), seen) || mentionsTypeParam(x.Elem(), seen)
+	case *types.Tuple:
+		for i := 0; i < x.Len(); i++ {
+			if mentionsTypeParam(x.At(i).Type(), seen) {
+				return true
+			}
+		}
+		return false
+	case *types.Signature:
+		return mentionsTypeParam(x.Params(), seen) || mentionsTypeParam(x.Results(), seen)
+	case *types.Struct:
+		for i := 0; i < x.NumFields(); i++ {
+			if mentionsTypeParam(x.Field(i).Type(), seen) {
+				return true
+			}
+		}
+		return false
+	case *types.Interface:
+		return x.NumMethods() > 0 || x.NumEmbeddeds() > 0
+	}
+	return false
 }
